@@ -431,7 +431,7 @@ def _name(x):
 # --------------------------------------------------------------------- CLI
 
 def run_cli(spec, argv, timeout=120, extra_env=None, extra_files=None,
-            keep=False, cwd=None, barrier=True):
+            keep=False, cwd=None, barrier=True, relpath=False):
     root = env.scratch('vtcli')
     res = Result()
     try:
@@ -445,7 +445,8 @@ def run_cli(spec, argv, timeout=120, extra_env=None, extra_files=None,
             e.pop('VT_BARRIER', None)
         if extra_env:
             e.update(extra_env)
-        cmd = [env.PY, '-m', 'zope.testrunner', '--path', root] + list(argv)
+        # relpath: the search path is given relative to the start directory
+        cmd = [env.PY, '-m', 'zope.testrunner', '--path', '.' if relpath else root] + list(argv)
         t0 = _real_time.time()
         try:
             p = _real_subprocess.run(cmd, env=e, stdout=_real_subprocess.PIPE,
